@@ -124,6 +124,15 @@ def post_init_task(src, c01, E, shape, task):
     return res
 
 
+def shared_c19_task(task):
+    """the default helpers that split a pot (State.rake -> utilities.rake, State.divmod -> utilities.divmod) conserve chips: raked + unraked
+    == amount, quotient * divisor + remainder == dividend.  Their contracts live under C19 (no size parameter: D-infinity); C01 assumes
+    exactly these contracts at every call of self.rake / self.divmod, so they are run here too."""
+    import props.c19 as p19
+    from pyvc.runner import relabel
+    return relabel(p19.vc_task(task), 'C01')
+
+
 def main(argv=None):
     chk = Check('C01', 'proof', argv)
     source(EXTRA)
@@ -141,6 +150,13 @@ def main(argv=None):
         tasks.append({'module': 'pyvc.native', 'fn': 'guard_task', 'name': 'native-guard', 'table_module': 'contracts.engine', 'prop': 'C01',
                       'hands': 400 if chk.tier == 'quick' else 4000, 'seed': chk.seed, 'budget_s': 25 if chk.tier == 'quick' else 240,
                       'weight': 100})
+    if not only:
+        from pyvc.shapes import Shape as _Shape
+        base = _Shape(n=2, S=1, T=1, B=1, H=1).as_dict()
+        for kind in ('rake', 'divmod'):
+            for ch in ('int', 'real'):
+                tasks.append({'module': 'props.c01', 'fn': 'shared_c19_task', 'kind': kind, 'shape': base, 'chips': ch, 'timeout_ms': 20000,
+                              'name': f'{kind}/{ch}'})
     chk.run_tasks(tasks)
     chk.assumptions += ASSUMPTIONS
     return chk.finish(checker_cmd='./check C01 --tier ' + chk.tier,
